@@ -29,6 +29,9 @@ POOL = ['a', 'z', 'A', 'Z', 'k', 'K', '\u212a', '5', '0', '9', '_', '$', '-', '.
         '\x85', '\xa0', '\u2003', '\u2028', '\u0661', '\u01c5', '\u01c6', '\xe9', '\xc9', '\xdf', '\u03a9', '\u03c3',
         '\u03c2', '\u4e2d', '\U0001f600', '\U0001d49c', '\u0378', '\ue000', '\xb7', '\xd7', '+', '^', '\\', ']', '[',
         '\u0130', '\u0131', '#', '&', '<', '\x00', '\U0010ffff', '\u0300', '\u2160', '\xad', '~', '|', '(', '{']
+RANGES_ESC = [('\\t', '\\r'), ('\\n', 'a'), ('\\-', '/'), ('!', '\\-'), ('\\*', '\\+'), ('\\[', '\\]'), ('+', '\\.'),
+              ('\\^', 'b'), ('\\.', '9'), ('\\\\', 'a'), ('\t', '\\n'), ('\\(', '\\)'), ('\\?', 'B'), ('\\{', '\\}'),
+              ('\\|', '~'), (' ', '\\*'), ('X', '\\\\')]
 RANGES = [('a', 'z'), ('A', 'Z'), ('0', '9'), ('a', 'c'), ('b', 'd'), ('Z', 'a'), (' ', '~'), ('\xe0', '\xff'),
           ('\U0001f600', '\U0001f602'), ('+', '.'), ('\x00', '\x7f'), ('a', 'a'), ('\t', '\r'), ('[', ']'),
           ('\u0660', '\u0669'), ('\x80', '\U0010ffff'), ('X', '\\'), ('^', 'b'), ('5', 'K'), (' ', ' ')]
@@ -39,8 +42,17 @@ CLS_CHARS = ['a', 'b', 'e', 'z', 'A', '5', '_', ' ', '$', '.', '?', '*', '+', '(
 # --------------------------------------------------------------------------
 # rendering
 # --------------------------------------------------------------------------
+def dec(x):
+    """character denoted by a class item: a character or an explicit escape text such as '\\n' or '\\.'"""
+    if len(x) == 2 and x[0] == '\\':
+        return {'n': '\n', 'r': '\r', 't': '\t'}.get(x[1], x[1])
+    return x
+
+
 def _rc(ch, first):
     """render one character inside a class"""
+    if len(ch) == 2 and ch[0] == '\\':
+        return ch
     if ch in '[]\\-':
         return '\\' + ch
     if ch == '^' and first:
@@ -143,7 +155,7 @@ def _set_ref(n):
             elif pt == 'e':
                 parts.append(('chr', ord({'n': '\n', 'r': '\r', 't': '\t'}.get(p[1], p[1]))))
             elif pt == 'r':
-                parts.append(('rng', ord(p[1]), ord(p[2])))
+                parts.append(('rng', ord(dec(p[1])), ord(dec(p[2]))))
             elif pt == 'hy':
                 parts.append(('chr', 0x2D))
             else:
@@ -247,15 +259,23 @@ def features(ast) -> list:
         sub = set()
         if n[1]:
             sub.add('neg')
-        for p in n[2]:
+        for k, p in enumerate(n[2]):
             pt = p[0]
             if pt == 'c':
-                k = _cc_kind(p[1])
-                sub.add('c:' + k if k else 'c')
+                ck = _cc_kind(p[1])
+                sub.add('c:' + ck if ck else 'c')
             elif pt == 'r':
-                ks = [_cc_kind(p[1]), _cc_kind(p[2])]
-                k = next((x for x in ('esc', 'meta', 'ws', 'na') if x in ks), '')
-                sub.add('r:' + k if k else 'r')
+                lo_src, hi_src = _rc(p[1], k == 0), _rc(p[2], False)
+                if lo_src[0] == '\\':
+                    sub.add('r:esc-start')
+                elif hi_src[0] == '\\' and hi_src[1] in 'nrt':
+                    sub.add('r:esc-end-nrt')
+                elif hi_src == '\\\\' and k + 1 < len(n[2]) and n[2][k + 1][0] in ('mce', 'cat', 'blk', 'e'):
+                    sub.add('r:bs-end+esc')
+                else:
+                    ks = [_cc_kind(dec(p[1])), _cc_kind(dec(p[2]))]
+                    kk = next((x for x in ('esc', 'meta', 'ws', 'na') if x in ks), '')
+                    sub.add('r:' + kk if kk else 'r')
             elif pt in ('e', 'hy'):
                 sub.add(pt)
             elif pt == 'mce':
@@ -371,8 +391,12 @@ def shrinks(n):
                 yield ['cls', neg, parts[:k] + parts[k + 1:], sub]
         for k, p in enumerate(parts):
             if p[0] == 'r' and p[1] != p[2]:
-                yield ['cls', neg, parts[:k] + [['c', p[1]]] + parts[k + 1:], sub]
-                yield ['cls', neg, parts[:k] + [['c', p[2]]] + parts[k + 1:], sub]
+                yield ['cls', neg, parts[:k] + [['c', dec(p[1])]] + parts[k + 1:], sub]
+                yield ['cls', neg, parts[:k] + [['c', dec(p[2])]] + parts[k + 1:], sub]
+                if len(p[1]) == 2:
+                    yield ['cls', neg, parts[:k] + [['r', dec(p[1]), p[2]]] + parts[k + 1:], sub]
+                if len(p[2]) == 2:
+                    yield ['cls', neg, parts[:k] + [['r', p[1], dec(p[2])]] + parts[k + 1:], sub]
         if len(parts) == 1 and not neg and sub is None and parts[0][0] in ('mce', 'cat', 'blk'):
             pass    # keep [\d] distinct from \d: different code paths
     elif t == 'lit':
@@ -421,7 +445,7 @@ def _gen_cls(draw, depth=0):
         if kind == 'c':
             parts.append(['c', draw(st.sampled_from(CLS_CHARS))])
         elif kind == 'r':
-            lo, hi = draw(st.sampled_from(RANGES))
+            lo, hi = draw(st.sampled_from(RANGES if draw(st.integers(0, 19)) < 18 else RANGES_ESC))
             parts.append(['r', lo, hi])
         elif kind == 'e':
             parts.append(['e', draw(st.sampled_from(list('nrt') + list('\\|.?*+(){}-[]^')))])
@@ -561,10 +585,10 @@ def alphabet(ast, flags) -> list:
                 elif p[0] == 'e':
                     add({'n': '\n', 'r': '\r', 't': '\t'}.get(p[1], p[1]))
                 elif p[0] == 'r':
-                    near(ord(p[1]))
-                    near(ord(p[2]))
+                    near(ord(dec(p[1])))
+                    near(ord(dec(p[2])))
                     if 'i' in flags:
-                        add(p[1].swapcase()[:1] or p[1])
+                        add(dec(p[1]).swapcase()[:1] or dec(p[1]))
                 elif p[0] == 'hy':
                     add('-')
             if n[3] is not None:
@@ -585,12 +609,12 @@ def _members(sx, pool, icase, want=True):
 
 
 @st.composite
-def subjects_for(draw, ast, xpath, flags, count, xml_only=False):
+def subjects_for(draw, ast, xpath, flags, count, xml_only=False, extra_chars=()):
     """`count` subject strings: sampled from the pattern (likely matches), mutated, or random."""
     q = 'q' in flags
     xflag = 'x' in flags and not q
     alpha = alphabet(ast, flags)
-    pool = list(POOL)
+    pool = list(POOL) + [c for c in extra_chars if c not in POOL]
     if xml_only:
         ok = lambda c: c in '\t\n\r' or (0x20 <= ord(c) <= 0xD7FF) or (0xE000 <= ord(c) <= 0xFFFD) or ord(c) >= 0x10000
         alpha = [c for c in alpha if ok(c)]
@@ -670,12 +694,13 @@ def subjects_for(draw, ast, xpath, flags, count, xml_only=False):
 
 
 @st.composite
-def pattern_case(draw, xpath: bool, nsubj: int = 8, xml_only: bool = False, flag_sets=None, max_atoms: int = 12):
+def pattern_case(draw, xpath: bool, nsubj: int = 8, xml_only: bool = False, flag_sets=None, max_atoms: int = 12,
+                 extra_chars=()):
     ver = draw(st.sampled_from(['1.0', '1.1']))
     flags = draw(st.sampled_from(flag_sets or FLAG_SETS)) if xpath else ''
     state = _State(xpath, flags, draw(st.integers(1, max_atoms)))
     ast = _gen_regexp(draw, state, 0)
-    subs = draw(subjects_for(ast, xpath, flags, nsubj, xml_only))
+    subs = draw(subjects_for(ast, xpath, flags, nsubj, xml_only, extra_chars))
     return {'ast': ast, 'flags': flags, 'xpath': xpath, 'ver': ver, 'subjects': subs}
 
 
@@ -713,10 +738,10 @@ def invalid_case(draw):
         S = '(' + S + ')'
     A = draw(st.sampled_from(_ATOMS))
     recipes = ['unbalanced-open', 'unbalanced-close', 'unterminated-class', 'stray-close-bracket', 'empty-class',
-               'bad-escape', 'bad-escape-in-class', 'trailing-backslash', 'double-quantifier', 'leading-quantifier',
+               'bad-escape-alnum', 'bad-escape-punct', 'bad-escape-in-class', 'trailing-backslash', 'double-quantifier', 'leading-quantifier',
                'inline-flag-group', 'backref-in-class', 'reversed-range', 'unknown-category', 'malformed-category',
                'class-unescaped-open-bracket', 'range-to-class-escape', 'junk-after-subtraction',
-               'unterminated-subtraction', 'quantity-malformed']
+               'unterminated-subtraction', 'quantity-malformed', 'quantity-nonascii-digit']
     if xpath:
         recipes += ['backref-missing-group', 'backref-open-group', 'triple-question-mark', 'backref-zero']
     else:
@@ -735,13 +760,17 @@ def invalid_case(draw):
     elif rc == 'unbalanced-close':
         text = P + ')' + S
     elif rc == 'unterminated-class':
-        text = P + draw(st.sampled_from(['[a', '[', '[^', '[a-', '[a-z', '[\\d', '[a-[b]']))
+        text = P + draw(st.sampled_from(['[a', '[', '[^', '[a-', '[a-z', '[\\d']))
     elif rc == 'stray-close-bracket':
         text = P + ']' + S
     elif rc == 'empty-class':
         text = P + draw(st.sampled_from(['[]', '[^]'])) + S
-    elif rc == 'bad-escape':
-        c = draw(st.sampled_from(_BAD_ESC_CHARS + ([] if xpath else list('123456789$'))))
+    elif rc == 'bad-escape-alnum':
+        c = draw(st.sampled_from([c for c in _BAD_ESC_CHARS if c.isalnum() or c == '_']
+                                 + ([] if xpath else list('123456789'))))
+        text = P + '\\' + c + S
+    elif rc == 'bad-escape-punct':
+        c = draw(st.sampled_from([c for c in _BAD_ESC_CHARS if not (c.isalnum() or c == '_')]))
         text = P + '\\' + c + S
     elif rc == 'bad-escape-in-class':
         c = draw(st.sampled_from(_BAD_ESC_CHARS + list('123456789')))
@@ -770,7 +799,7 @@ def invalid_case(draw):
     elif rc == 'backref-in-class':
         text = P + '(a)' + draw(st.sampled_from(['[\\1]', '[a\\1]', '[^\\1]', '[\\1-z]'])) + S
     elif rc == 'reversed-range':
-        text = P + draw(st.sampled_from(['[z-a]', '[9-0]', '[b-a]', '[^z-a]', '[ab-a]', '[\\]-\\[]', '[a-c-[z-y]]'])) + S
+        text = P + draw(st.sampled_from(['[z-a]', '[9-0]', '[b-a]', '[^z-a]', '[ab-a]', '[a-c-[z-y]]'])) + S
     elif rc == 'unknown-category':
         text = P + draw(st.sampled_from(['\\p{Xx}', '\\p{Ab}', '\\p{l}', '\\p{LU}', '\\P{Q}', '\\p{Letter}',
                                          '[\\p{Xx}]', '[a\\P{Ab}]', '\\p{Lu }', '\\p{L-u}'])) + S
@@ -787,7 +816,9 @@ def invalid_case(draw):
         text = P + draw(st.sampled_from(['[a-[b]', '[a-z-[aeiou]', '[^a-[b]', '[\\w-[\\d]']))
     elif rc == 'quantity-malformed':
         text = P + A + draw(st.sampled_from(['{1', '{1,2', '{x}', '{1;2}', '{-1}', '{1,2,3}', '{1,x}', '{', '{}', '{1 }',
-                                             '{ 1}', '{1, 2}', '{+1}', '{1.0}', '{\u0661}'])) + draw(st.sampled_from(['', 'a']))
+                                             '{ 1}', '{1, 2}', '{+1}', '{1.0}'])) + draw(st.sampled_from(['', 'a']))
+    elif rc == 'quantity-nonascii-digit':
+        text = P + A + draw(st.sampled_from(['{\u0661}', '{1,\u0662}', '{\u0661,}', '{\uff11}'])) + S
     elif rc == 'backref-missing-group':
         text = P + '\\' + str(min(ngroups + draw(st.integers(1, 2)), 9)) + S if ngroups < 8 else P + ')'
     elif rc == 'backref-open-group':
